@@ -447,6 +447,46 @@ pub fn sweep_cases() -> Vec<Case> {
     v
 }
 
+/// Wide-group mode: one group of 33-70 (thorough: 130) independent targets above/below a small
+/// layer; one member exits non-zero at once while its siblings keep running for a while.
+pub fn strategy_wide(max_n: usize) -> impl Strategy<Value = Case> {
+    (
+        prop_oneof![3 => 33usize..=40, 2 => 60usize..=70, 1 => 33usize..=130],
+        1usize..=2,
+        any::<bool>(),
+        vec(any::<u16>(), 8),
+        any::<u16>(),
+        1i32..=255,
+        1usize..=2,
+        200u64..500,
+    )
+        .prop_map(move |(n, k, wide_first, picks, fsel, code, ncmd, sibling_ms)| {
+            let n = n.min(max_n);
+            let layers = if wide_first { vec![n, k] } else { vec![k, n] };
+            let config = gen::layered_config(&layers, &picks);
+            let commands: Vec<String> = (0..ncmd).map(|i| format!("c{}", i)).collect();
+            let wide_layer = if wide_first { 0 } else { 1 };
+            let victim = format!("l{}t{}", wide_layer, pick(fsel, n));
+            let faults = vec![("c0".to_string(), victim.clone(), Fault::Exit(code))];
+            let mut sleeps = vec![];
+            for c in &commands {
+                for t in &config.targets {
+                    let ms = if t.path == victim { 0 } else if t.path.starts_with(&format!("l{}t", wide_layer)) { sibling_ms } else { 5 };
+                    sleeps.push((c.clone(), t.path.clone(), ms));
+                }
+            }
+            Case {
+                config,
+                commands,
+                faults,
+                fail_on_undefined: false,
+                sleeps,
+                delays: vec![],
+                symlinks: 0,
+            }
+        })
+}
+
 /// A command file that loses its x bit *during* the run (an earlier executable strips it).
 #[derive(Debug, Clone, Serialize, Deserialize)]
 pub struct ChmodCase {
@@ -571,7 +611,7 @@ pub fn check_chmod(case: &ChmodCase, w: usize) -> CheckResult {
 
 pub fn run(ctx: &mut Ctx) {
     ctx.rule = "layered plan (1-4 groups x 1-4 targets x 1-3 commands) x 0-3 faults anywhere (exit 1..255, missing x bit, undefined) x --fail-on-undefined \
-x child sleeps x 0-3 internal delays (0-60 ms) at guarded points; plus a deterministic sweep (no fault, group size 2-12, one delay at one point); plus faults by signal (judged for truthfulness only) and command files whose x bit is removed by an earlier executable of the same run. \
+x child sleeps x 0-3 internal delays (0-60 ms) at guarded points; plus a deterministic sweep (no fault, group size 2-12, one delay at one point); plus a wide-group mode (one group of 33-70 members, thorough 130, one of which fails at once while the others keep running); plus faults by signal (judged for truthfulness only) and command files whose x bit is removed by an earlier executable of the same run. \
 oracle: failed == (a counting fault is planned) == (exit status 1, else exactly 0; fatal exit is a violation), everything after the first failing group is skipped and \
 never started, success/error-code/undefined/not_executable/skipped entries agree with the helper traces. non-trivial = a counting fault with work planned after it, \
 or no fault with a delay on a shutdown/drain point and a group of >= 2; distinct by SHA-256"
@@ -585,6 +625,9 @@ or no fault with a delay on a shutdown/drain point and a group of >= 2; distinct
     ctx.drive("run", strategy, n, check);
     let n2 = ctx.n(40, 800);
     ctx.drive("xbit-lost-during-run", chmod_strategy, n2, check_chmod);
+    let n3 = ctx.n(16, 300);
+    let max_n = if ctx.thorough() { 130 } else { 70 };
+    ctx.drive("wide-group-failure", move || strategy_wide(max_n), n3, check);
 }
 
 pub fn replay(ctx: &Ctx, label: &str, case: Value) -> Result<(), String> {
